@@ -252,3 +252,28 @@ def collection_save_restores_state(share):
         ob('later-save-carries-its-own-instant', conj([eq(f['head'].modified, nows[1] if w else o) for f, w, o in zip(fonts, want_flag, own)]))
     finally:
         TC.timestampNow, HD.timestampNow = saved
+
+
+# ------------------------------------------------------------------------------------------------ lazy decoding: reader state isolation
+@kernel('C16', funcs=['ttLib/tables/otBase.py:OTTableReader.__setitem__', 'ttLib/tables/otBase.py:OTTableReader.getSubReader', 'ttLib/tables/otBase.py:OTTableReader.copy',
+                      'ttLib/tables/otBase.py:OTTableWriter.__setitem__', 'ttLib/tables/otBase.py:OTTableWriter.getSubWriter'],
+        bounds='the propagated decoding state of OpenType Layout readers / writers (what makes lazy and eager decoding agree): a value a parent sets AFTER handing '
+               'out a sub-reader (or copy) is not seen by that sub-reader, a value set before is; same for writers; values symbolic',
+        quick=[dict()])
+def reader_state_is_copy_on_write():
+    a, b, c = V.int('a', 0, 1000), V.int('b', 0, 1000), V.int('c', 0, 1000)
+    assume(neg(eq(a, b)))
+    r = OB.OTTableReader(b'\0' * 8)
+    r['FeatureTag'] = a
+    sub = r.getSubReader(4)
+    cp = r.copy()
+    r['FeatureTag'] = b
+    r['Other'] = c
+    ob('sub-reader-keeps-the-value-it-was-given', conj([eq(sub['FeatureTag'], a), eq(cp['FeatureTag'], a)]))
+    ob('later-keys-do-not-leak-into-earlier-children', 'Other' not in (sub.localState or {}) and 'Other' not in (cp.localState or {}))
+    ob('parent-sees-its-own-update', eq(r['FeatureTag'], b))
+    w = OB.OTTableWriter()
+    w['ValueFormat'] = a
+    sw = w.getSubWriter()
+    w['ValueFormat'] = b
+    ob('sub-writer-keeps-the-value-it-was-given', eq(sw['ValueFormat'], a))
